@@ -312,6 +312,7 @@ func genExportGuard(repo string) (string, error) {
 	if len(direct) != 1 || tableUses != 1 {
 		return "", egErr("emitCallNode: %d branches `if ident, ok := call.Func.(*ast.Identifier); … { if fn, ok := em.fnStore.availableScriggoFn(em.pkg, ident.Name); ok {`, %d look-ups of ident.Name in the package table; want 1 and 1", len(direct), tableUses)
 	}
+	usesClosureVar := false
 	var dcg func(e ast.Expr) (string, error)
 	dcg = func(e ast.Expr) (string, error) {
 		switch e := e.(type) {
@@ -332,6 +333,10 @@ func genExportGuard(repo string) (string, error) {
 		case *ast.CallExpr:
 			if g.src(e) == "em.fb.declaredInFunc(ident.Name)" {
 				return "declaredInFunc", nil
+			}
+			if g.src(e) == "em.varStore.isClosureVar(em.fb.fn, ident.Name)" {
+				usesClosureVar = true
+				return "isClosureVar", nil
 			}
 		case *ast.BinaryExpr:
 			if e.Op == token.LAND || e.Op == token.LOR {
@@ -356,15 +361,34 @@ func genExportGuard(repo string) (string, error) {
 	if err != nil {
 		return "", err
 	}
-	pi, pdf := "isIdent", "declaredInFunc"
+	if usesClosureVar {
+		// the atom must be the plain membership test `_, ok := vs.closureVars[fn][name]; return ok`
+		vsf, err := parse("internal/compiler/emitter_var_store.go")
+		if err != nil {
+			return "", err
+		}
+		icv := egMethod(vsf, "varStore", "isClosureVar")
+		fld := func(f *ast.Field, name, typ string) bool {
+			return len(f.Names) == 1 && f.Names[0].Name == name && g.src(f.Type) == typ
+		}
+		if icv == nil || icv.Body == nil || len(icv.Body.List) != 2 || icv.Type.Params == nil ||
+			len(icv.Type.Params.List) != 2 || !fld(icv.Type.Params.List[0], "fn", "*runtime.Function") || !fld(icv.Type.Params.List[1], "name", "string") ||
+			g.src(icv.Body.List[0]) != "_, ok := vs.closureVars[fn][name]" || g.src(icv.Body.List[1]) != "return ok" {
+			return "", egErr("(*varStore).isClosureVar is not `func (vs *varStore) isClosureVar(fn *runtime.Function, name string) bool { _, ok := vs.closureVars[fn][name]; return ok }`")
+		}
+	}
+	pi, pdf, pcv := "isIdent", "declaredInFunc", "isClosureVar"
 	if !strings.Contains(dc, "isIdent") {
 		pi = "_isIdent"
 	}
 	if !strings.Contains(dc, "declaredInFunc") {
 		pdf = "_declaredInFunc"
 	}
-	out.WriteString("/-- emitCallNode, branch \"Scriggo-defined function (identifier)\": the condition under which a call\n`Name(...)` is emitted as a direct call of the package table's function `Name`, as a function of\n`call.Func` being an identifier and of `em.fb.declaredInFunc(ident.Name)` -/\n")
-	out.WriteString("def directCallGuard (" + pi + " " + pdf + " : Bool) : Bool :=\n  " + dc + "\n\n")
+	if !strings.Contains(dc, "isClosureVar") {
+		pcv = "_isClosureVar"
+	}
+	out.WriteString("/-- emitCallNode, branch \"Scriggo-defined function (identifier)\": the condition under which a call\n`Name(...)` is emitted as a direct call of the package table's function `Name`, as a function of\n`call.Func` being an identifier, of `em.fb.declaredInFunc(ident.Name)` and of\n`em.varStore.isClosureVar(em.fb.fn, ident.Name)` (= `closureVars[em.fb.fn]` has the name) -/\n")
+	out.WriteString("def directCallGuard (" + pi + " " + pdf + " " + pcv + " : Bool) : Bool :=\n  " + dc + "\n\n")
 
 	// ---- 2. emitImport
 	es, err := parse("internal/compiler/emitter_statements.go")
